@@ -596,6 +596,16 @@ package runtime
 //@   effectsonly
 //@   effects catches-termination
 
+// The pending to-be-closed variables of an ending coroutine run in the deferred
+// function of its goroutine, where a panic would kill the process: closePending
+// catches whatever interrupts them and returns it, and Thread.end hands it to
+// the resuming thread (which re-raises it) - the termination is forwarded, not
+// turned into a normal outcome.
+//@ func (*Thread).closePending
+//@   prop C05
+//@   effectsonly
+//@   effects catches-termination
+
 //@ func (*Thread).Start
 //@   prop C05
 //@   effectsonly
@@ -1202,9 +1212,9 @@ package runtime
 //@   requires t != nil && t.caller != nil && t.caller != t
 //@   modifies everything()
 //@   exits any
-//@   assert_before_call sendResumeValues: old(t.status) == ThreadOK && $t == old(t.caller) && $exception == exception
+//@   assert_before_call sendResumeValues: old(t.status) == ThreadOK && $t == old(t.caller) && (exception != nil ==> $exception == exception)   // (a thread that ends normally may still be interrupted while closing its pending variables: that exception is handed over instead)
 //@   assert_before_call ReleaseBytes: ghost(wake) == 0   // the thread does not touch the runtime's accounting after handing control back
-//@   assert_before_call cleanupCloseStack: exception == nil   // (C05) a coroutine that ends because its context was terminated runs no __close handler: the termination cannot be followed by more Lua code of that context
+//@   assert_before_call closePending: exception == nil   // (C05) a coroutine that ends because its context was terminated runs no __close handler: the termination cannot be followed by more Lua code of that context
 //@   ensures ghost(wake) == 1
 
 // ---------------------------------------------------------------------------
